@@ -340,6 +340,28 @@ type Syncer struct {
 
 	inflightMu     sync.Mutex
 	inflightSubnet map[string]int // subnet key -> live inbound handler count
+
+	relayedMu      sync.Mutex
+	relayedHeaders [32]types.BlockID // IDs of the headers most recently relayed
+	relayedNext    int
+}
+
+// firstRelay records that the header with the given ID is being relayed and
+// reports whether it had not been relayed recently. A header that attaches to
+// our tip is relayed before we have its block; without this, nodes that are
+// still missing the block pass the same header around among themselves for as
+// long as they are missing it.
+func (s *Syncer) firstRelay(bid types.BlockID) bool {
+	s.relayedMu.Lock()
+	defer s.relayedMu.Unlock()
+	for _, id := range s.relayedHeaders {
+		if id == bid {
+			return false
+		}
+	}
+	s.relayedHeaders[s.relayedNext] = bid
+	s.relayedNext = (s.relayedNext + 1) % len(s.relayedHeaders)
+	return true
 }
 
 func (s *Syncer) resync(p *Peer, reason string) {
